@@ -15,6 +15,8 @@ import (
 	"go.uber.org/zap"
 	"go.uber.org/zap/exp/zapslog"
 	"go.uber.org/zap/zapcore"
+	"go.uber.org/zap/zapgrpc"
+	"go.uber.org/zap/zapio"
 
 	"verif/simsync"
 	"verif/zsim"
@@ -72,18 +74,46 @@ const (
 	feSugarLn
 	feSlog
 	feStd
+	feGrpc
+	feZapio
 	nFrontEnds
 )
 
 // taskLogger bundles the front ends derived for one task from a base logger.
 type taskLogger struct {
-	l   *zap.Logger
-	s   *zap.SugaredLogger
-	sl  *slog.Logger
-	std map[zapcore.Level]*log.Logger
+	l    *zap.Logger
+	s    *zap.SugaredLogger
+	sl   *slog.Logger
+	std  map[zapcore.Level]*log.Logger
+	grpc *zapgrpc.Logger
+	wio  map[zapcore.Level]*zapio.Writer
 }
 
 func c04derive(base *zap.Logger, variant, t int) *taskLogger {
+	return c04wrap(c04deriveLogger(base, variant, t))
+}
+
+// perTask gives a task its own copy of a shared bundle: everything is shared
+// except the zapio writers, which are not meant for concurrent use, and the
+// std-log bridge loggers: log.Logger serialises its callers with a mutex of
+// the standard library, which the simulator does not model (a task parked
+// inside it would block the others on a real lock).
+func (tl *taskLogger) perTask() *taskLogger {
+	cp := *tl
+	cp.wio = map[zapcore.Level]*zapio.Writer{}
+	cp.std = map[zapcore.Level]*log.Logger{}
+	for _, lv := range stdLevels {
+		cp.wio[lv] = &zapio.Writer{Log: tl.l, Level: lv}
+		sl, err := zap.NewStdLogAt(tl.l, lv)
+		if err != nil {
+			panic(err)
+		}
+		cp.std[lv] = sl
+	}
+	return &cp
+}
+
+func c04deriveLogger(base *zap.Logger, variant, t int) *zap.Logger {
 	l := base
 	switch variant {
 	case 1:
@@ -101,9 +131,15 @@ func c04derive(base *zap.Logger, variant, t int) *taskLogger {
 	case 7:
 		l = base.With(zap.Reflect("cfg", map[string]int{"t": t})).With(zap.Object("yo", yieldObj{t}), zap.Reflect("r2", yieldJSON{t + 100}))
 	}
-	tl := &taskLogger{l: l, s: l.Sugar(), std: map[zapcore.Level]*log.Logger{}}
+	return l
+}
+
+func c04wrap(l *zap.Logger) *taskLogger {
+	tl := &taskLogger{l: l, s: l.Sugar(), std: map[zapcore.Level]*log.Logger{}, wio: map[zapcore.Level]*zapio.Writer{}}
 	tl.sl = slog.New(zapslog.NewHandler(l.Core()))
+	tl.grpc = zapgrpc.NewLogger(l, zapgrpc.WithDebug())
 	for _, lv := range stdLevels {
+		tl.wio[lv] = &zapio.Writer{Log: l, Level: lv}
 		sl, err := zap.NewStdLogAt(l, lv)
 		if err != nil {
 			panic(err)
@@ -158,6 +194,26 @@ func c04do(tl *taskLogger, c *c04call) {
 		tl.sl.Log(context.Background(), sl, msg, "t", c.task, "s", c.seq, "pad", c.pad)
 	case feStd:
 		tl.std[c.lvl].Print(msg + "|" + c.pad)
+	case feGrpc:
+		switch c.lvl {
+		case zapcore.DebugLevel:
+			tl.grpc.Print(msg, "|", c.pad)
+		case zapcore.InfoLevel:
+			tl.grpc.Infof("%s|%s", msg, c.pad)
+		case zapcore.WarnLevel:
+			tl.grpc.Warningln(msg, c.seq, c.pad)
+		default:
+			tl.grpc.Error(msg, "|", c.pad)
+		}
+	case feZapio:
+		// one complete line per call, delivered in two chunks through the
+		// line-splitting writer (each task owns its writers: zapio.Writer is
+		// not itself safe for concurrent use)
+		w := tl.wio[c.lvl]
+		line := msg + "|" + c.pad + "\n"
+		h := len(line) / 2
+		_, _ = w.Write([]byte(line[:h]))
+		_, _ = w.Write([]byte(line[h:]))
 	}
 }
 
@@ -174,6 +230,12 @@ func runC04(c *Ctx) {
 	clk := zsim.NewSimClock(r, drawEpoch(g))
 	var branches []*c04branch
 	var cores, refCores []zapcore.Core
+	// caller annotation on: the call sites are the same lines of c04do in
+	// the simulated and in the reference execution
+	withCaller := g.Chance(4)
+	// derived loggers shared between tasks (one derivation per variant, made
+	// before the tasks start) instead of one private derivation per task
+	shared := g.Chance(3)
 	var tickers []*zapcore.BufferedWriteSyncer
 	bufSize := 0
 	for b := 0; b < nBranch; b++ {
@@ -211,9 +273,9 @@ func runC04(c *Ctx) {
 			br.ws = br.bws
 			tickers = append(tickers, br.bws)
 		}
-		br.core = zapcore.NewCore(newEncoder(br.console), br.ws, br.level)
+		br.core = zapcore.NewCore(newEncoderCaller(br.console, withCaller), br.ws, br.level)
 		br.refBuf = &bytes.Buffer{}
-		br.refCore = zapcore.NewCore(newEncoder(br.console), zapcore.AddSync(br.refBuf), br.level)
+		br.refCore = zapcore.NewCore(newEncoderCaller(br.console, withCaller), zapcore.AddSync(br.refBuf), br.level)
 		branches = append(branches, br)
 		cores = append(cores, br.core)
 		refCores = append(refCores, br.refCore)
@@ -234,7 +296,11 @@ func runC04(c *Ctx) {
 	} else {
 		core = zapcore.NewTee(cores...)
 	}
-	base := zap.New(core, zap.ErrorOutput(zapcore.AddSync(io.Discard)))
+	var lopts []zap.Option
+	if withCaller {
+		lopts = append(lopts, zap.AddCaller())
+	}
+	base := zap.New(core, append(lopts, zap.ErrorOutput(zapcore.AddSync(io.Discard)))...)
 
 	nTasks := 2 + g.Weighted(4, 3, 1)
 	maxCalls := 5
@@ -275,7 +341,7 @@ func runC04(c *Ctx) {
 	for b, br := range branches {
 		desc = append(desc, fmt.Sprintf("branch%d{>=%s console=%v stack=%s}", b, br.level, br.console, []string{"Lock(sink)", "Open(1)", "Open(2)", "Combine(2)", "Buffered"}[br.kind]))
 	}
-	c.Describe("%s frag=%d pool=%d tasks=%d syncTask=%v ticks<=%d policy=%s", strings.Join(desc, " "), frag, poolPol, nTasks, syncTask, tickBudget, r.Policy)
+	c.Describe("%s frag=%d pool=%d tasks=%d syncTask=%v ticks<=%d caller=%v sharedDerived=%v policy=%s", strings.Join(desc, " "), frag, poolPol, nTasks, syncTask, tickBudget, withCaller, shared, r.Policy)
 	for t, tk := range tasks {
 		var b strings.Builder
 		fmt.Fprintf(&b, "t%d(variant %d):", t, tk.variant)
@@ -286,11 +352,24 @@ func runC04(c *Ctx) {
 	}
 
 	// ---- tasks ----
+	sharedTL := map[int]*taskLogger{}
+	if shared {
+		for _, tk := range tasks {
+			if sharedTL[tk.variant] == nil {
+				sharedTL[tk.variant] = c04derive(base, tk.variant, 100+tk.variant)
+			}
+		}
+	}
 	for t, tk := range tasks {
 		tk := tk
 		t := t
 		r.Go(fmt.Sprintf("t%d", t), func() {
-			tl := c04derive(base, tk.variant, t)
+			var tl *taskLogger
+			if shared {
+				tl = sharedTL[tk.variant].perTask()
+			} else {
+				tl = c04derive(base, tk.variant, t)
+			}
 			for _, call := range tk.calls {
 				c04do(tl, call)
 				call.done = true
@@ -351,10 +430,13 @@ func runC04(c *Ctx) {
 	// ---- reference: the same calls, sequentially, on private sinks ----
 	simsync.SetPolicy(simsync.PoolFresh, 1, 0)
 	for bi, br := range branches {
-		refBase := zap.New(br.refCore)
+		refBase := zap.New(br.refCore, lopts...)
 		expect := map[string]*c04call{} // reference line -> call
 		for t, tk := range tasks {
 			tl := c04derive(refBase, tk.variant, t)
+			if shared {
+				tl = c04derive(refBase, tk.variant, 100+tk.variant)
+			}
 			for _, call := range tk.calls {
 				br.refBuf.Reset()
 				c04do(tl, call)
